@@ -30,17 +30,41 @@ package routing
 //@ requires bundleItem.Properties != nil && forall k int :: 0 <= k && k < len(clas) ==> clas[k] != nil
 //@ let props := bundleItem.Properties
 //@ let key := "routing/" + algorithm + "/sent"
-//@ requires has(props, key) && is(props[key], []bpv7.EndpointID)
+//@ let n0 := (has(props, key) && is(props[key], []bpv7.EndpointID)) ? len(sentOf(props, key)) : 0
 //@ assigns nothing
-//@ ensures len(sentEids) == old(len(sentOf(props, key))) + len(filtered) && len(filtered) <= len(clas)
-//@ ensures forall j int :: 0 <= j && j < old(len(sentOf(props, key))) ==> sentEids[j] == old(sentOf(props, key)[j]) @thorough
-//@ ensures forall k int :: 0 <= k && k < len(filtered) ==> sentEids[old(len(sentOf(props, key))) + k] == filtered[k].GetPeerEndpointID() @thorough
-//@ ensures forall k, j int :: 0 <= k && k < len(filtered) && 0 <= j && j < old(len(sentOf(props, key))) ==> filtered[k].GetPeerEndpointID() != old(sentOf(props, key)[j]) @thorough
+//@ ensures len(sentEids) == n0 + len(filtered) && len(filtered) <= len(clas)
+//@ ensures forall j int :: 0 <= j && j < n0 ==> sentEids[j] == old(sentOf(props, key)[j]) @thorough
+//@ ensures forall k int :: 0 <= k && k < len(filtered) ==> sentEids[n0 + k] == filtered[k].GetPeerEndpointID() @thorough
+//@ ensures forall k, j int :: 0 <= k && k < len(filtered) && 0 <= j && j < n0 ==> filtered[k].GetPeerEndpointID() != old(sentOf(props, key)[j]) @thorough
 //@ ensures forall k, l int :: 0 <= k && k < l && l < len(filtered) ==> filtered[k].GetPeerEndpointID() != filtered[l].GetPeerEndpointID() @thorough
 //@ loop 0 invariant 0 <= rangeindex + 1 && rangeindex + 1 <= len(clas) && len(filtered) <= rangeindex + 1
-//@ loop 0 invariant len(sentEids) == old(len(sentOf(props, key))) + len(filtered)
-//@ loop 0 invariant forall j int :: 0 <= j && j < old(len(sentOf(props, key))) ==> sentEids[j] == old(sentOf(props, key)[j]) @thorough
-//@ loop 0 invariant forall k int :: 0 <= k && k < len(filtered) ==> filtered[k] != nil && sentEids[old(len(sentOf(props, key))) + k] == filtered[k].GetPeerEndpointID() @thorough
-//@ loop 0 invariant forall k, j int :: 0 <= k && k < len(filtered) && 0 <= j && j < old(len(sentOf(props, key))) + k ==> filtered[k].GetPeerEndpointID() != sentEids[j] @thorough
+//@ loop 0 invariant len(sentEids) == n0 + len(filtered)
+//@ loop 0 invariant forall j int :: 0 <= j && j < n0 ==> sentEids[j] == old(sentOf(props, key)[j]) @thorough
+//@ loop 0 invariant forall k int :: 0 <= k && k < len(filtered) ==> filtered[k] != nil && sentEids[n0 + k] == filtered[k].GetPeerEndpointID() @thorough
+//@ loop 0 invariant forall k, j int :: 0 <= k && k < len(filtered) && 0 <= j && j < n0 + k ==> filtered[k].GetPeerEndpointID() != sentEids[j] @thorough
 //@ loop 1 invariant 0 <= rangeindex + 1
 //@ loop 1 invariant forall j int :: 0 <= j && j < rangeindex + 1 ==> cs.GetPeerEndpointID() != sentEids[j] @thorough
+
+// A bundle that arrived from a neighbour (previous-node block) is never offered back to that neighbour: after the
+// notification the neighbour is in the bundle's sent list (it was there already, or it is appended), and the entries
+// that were there before stay where they were.
+// govc:func (*EpidemicRouting).NotifyNewBundle property C13
+//@ requires er.c != nil && er.c.store != nil && bp.bndl != nil && blocksNonNil(*bp.bndl) && prevUnique(*bp.bndl)
+//@ let props := uf("propsOf", "map[string]interface{}", er.c.store, bp.Id)
+//@ let key := "routing/epidemic/sent"
+//@ ensures er.c.store.$qok ==> forall j int :: 0 <= j && j < len(bp.bndl.CanonicalBlocks) && bp.bndl.CanonicalBlocks[j].Value.BlockTypeCode() == 6 ==> has(props, key) && is(props[key], []bpv7.EndpointID) && exists x int :: 0 <= x && x < len(props[key].([]bpv7.EndpointID)) && props[key].([]bpv7.EndpointID)[x] == bpv7.EndpointID(*(bp.bndl.CanonicalBlocks[j].Value.(*bpv7.PreviousNodeBlock)))
+//@ ensures old(has(props, key) && is(props[key], []bpv7.EndpointID)) ==> has(props, key) && is(props[key], []bpv7.EndpointID) && len(props[key].([]bpv7.EndpointID)) >= old(len(props[key].([]bpv7.EndpointID))) && forall y int :: 0 <= y && y < old(len(props[key].([]bpv7.EndpointID))) ==> props[key].([]bpv7.EndpointID)[y] == old(props[key].([]bpv7.EndpointID)[y])
+//@ loop 0 invariant 0 <= rangeindex + 1 && rangeindex + 1 <= len(sentEids)
+
+// Selection for an outgoing bundle: the senders come from filterCLAs (each peer once, none that is in the sent
+// list); when the selection is recorded (SenderForBundle) the stored sent list grows by exactly the selected peers;
+// the bundle is never released by the epidemic algorithm itself.
+// govc:func (*EpidemicRouting).clasForBundle property C13
+//@ requires er.c != nil && er.c.store != nil && er.c.claManager != nil
+//@ let props := uf("propsOf", "map[string]interface{}", er.c.store, bp.Id)
+//@ let key := "routing/epidemic/sent"
+//@ let n0 := (has(props, key) && is(props[key], []bpv7.EndpointID)) ? len(props[key].([]bpv7.EndpointID)) : 0
+//@ ensures !del
+//@ ensures !er.c.store.$qok ==> len(css) == 0
+//@ ensures er.c.store.$qok && updateDb ==> has(props, key) && is(props[key], []bpv7.EndpointID) && len(props[key].([]bpv7.EndpointID)) == n0 + len(css)
+//@ ensures er.c.store.$qok && !updateDb ==> has(props, key) == old(has(props, key)) && (has(props, key) && is(props[key], []bpv7.EndpointID) ==> len(props[key].([]bpv7.EndpointID)) == n0)
